@@ -12,10 +12,12 @@ ROWS = []
 
 
 def row(name, kind, ret="i64", limit=0, policy=None, ttl=0, maxmem=0, maxmem_txt=None, w=None,
-        cif=False, inv=False, tags=(), events=(), deps=(), alias=None, awaits=0):
+        cif=False, inv=False, tags=(), events=(), deps=(), alias=None, awaits=0, sig="k", scope_txt=None,
+        corpus=False, tla=None):
     ROWS.append(dict(name=name, kind=kind, ret=ret, limit=limit, policy=policy, ttl=ttl, maxmem=maxmem,
                      maxmem_txt=maxmem_txt, w=w, cif=cif, inv=inv, tags=list(tags), events=list(events),
-                     deps=list(deps), alias=alias, awaits=awaits))
+                     deps=list(deps), alias=alias, awaits=awaits, sig=sig, scope_txt=scope_txt, corpus=corpus,
+                     tla=tla))
 
 
 POL = ["fifo", "lru", "lfu", "arc", "random", "tlru"]
@@ -78,6 +80,27 @@ row("a_await3_res", "async", awaits=3, ret="res", limit=2, policy="lfu")
 row("a_await2_mem", "async", awaits=2, ret="str", maxmem=100, policy="lru")
 
 
+# ---- C19 corpus: covering array over attribute values x signature shapes
+sys.path.insert(0, os.path.dirname(os.path.abspath(__file__)))
+import attr_corpus
+CORPUS = attr_corpus.covering(7)
+_extra = [r for r in attr_corpus.covering(11) if r["macro"] == "async"][:30]
+CORPUS += _extra
+ATTR_ROWS = []
+for i, r in enumerate(CORPUS):
+    nm = "x%03d" % i
+    exp = attr_corpus.expectation(r)
+    kind = exp["cfg"]["flavour"]
+    tla = attr_corpus.tla_row(r, nm, exp)
+    ATTR_ROWS.append(tla)
+    row(nm, kind, ret=r["ret"], limit=r["limit"][1], policy=r["policy"][1] or None, ttl=r["ttl"][1],
+        maxmem=exp["cfg"]["maxmem"], maxmem_txt=r["maxmem"][2], w=r["weight"][2],
+        cif=r["preds"] in ("cif", "both"), inv=r["preds"] in ("inv", "both"),
+        tags=["tx"] if r["meta"] == "tags" else (), events=["ex"] if r["meta"] == "events_deps" else (),
+        deps=["g_a"] if r["meta"] == "events_deps" else (), alias=("custom_" + nm) if r["name"] == "custom" else None,
+        sig=r["sig"], scope_txt=(r["scope"][1] if r["scope"][0] == "str" else None), corpus=True, tla=tla)
+
+
 def attr_text(r):
     a = []
     if r["limit"]:
@@ -86,7 +109,9 @@ def attr_text(r):
         a.append('policy = "%s"' % r["policy"])
     if r["ttl"]:
         a.append("ttl = %d" % r["ttl"])
-    if r["kind"] == "thread":
+    if r.get("scope_txt"):
+        a.append('scope = "%s"' % r["scope_txt"])
+    elif r["kind"] == "thread":
         a.append('scope = "thread"')
     if r["maxmem"]:
         a.append("max_memory = %s" % (r["maxmem_txt"] or str(r["maxmem"])))
@@ -111,6 +136,27 @@ RET_TY = {"i64": "i64", "res": "Result<i64, String>", "res_std": "std::result::R
           "str": "String", "res_str": "Result<String, String>"}
 
 
+# signature shapes: (parameter list, expression for the key number inside the body, -, method?, -)
+SIGS = {
+    "k": ("k: u32", "k", "", False, ""),
+    "zero": ("", "0", "", False, ""),
+    "two": ("a: u32, b: String", "{ let _ = &b; a }", "", False, ""),
+    "four": ("a: u32, b: bool, c: i64, d: String", "{ let _ = (b, c, &d); a }", "", False, ""),
+    "mref": ("&self, k: u32", "{ let _ = self.id; k }", "", True, ""),
+    "mmut": ("&mut self", "self.id", "", True, ""),
+    "mval": ("self, k: u32, s: &str", "{ let _ = (self.id, s); k }", "", True, ""),
+}
+CALLS = {
+    "k": "{f}(k)", "zero": "{f}()", "two": "{f}(k, format!(\"s{{}}\", k))",
+    "four": "{f}(k, k % 2 == 0, k as i64 + 100, format!(\"x|y{{}}\", k))",
+    "mref": "Obj {{ id: 7 }}.{f}(k)", "mmut": "Obj {{ id: k }}.{f}()", "mval": "Obj {{ id: 7 }}.{f}(k, \"z\")",
+}
+KEYFMT = {
+    "k": "{k}", "zero": "", "two": "{k}|\"s{k}\"", "four": "{k}|{e}|{n}|\"x|y{k}\"",
+    "mref": "Obj { id: 7 }|{k}", "mmut": "Obj { id: {k} }", "mval": "Obj { id: 7 }|{k}|\"z\"",
+}
+
+
 def conv_expr(ret):
     return {"i64": "raw_i64(r)", "res": "raw_res(r)", "res_std": "raw_res(r)", "str": "raw_str(r)",
             "res_str": "raw_res_str(r)"}[ret]
@@ -121,11 +167,11 @@ def out_expr(ret):
             "res_str": "out_res_str(&v)"}[ret]
 
 
-def gen(out_rs, out_json):
+def gen_rs(rows, header_extra, sync_fn, async_fn, fallthrough):
     L = ["// GENERATED by lib/gen_fixtures.py -- do not edit.",
          "#![allow(non_snake_case, unused_imports, dead_code, clippy::all)]",
-         "use crate::macrodrv::*;", "use cachelito::cache;", "use cachelito_async::cache_async;", ""]
-    for r in ROWS:
+         "use crate::macrodrv::*;", "use cachelito::cache;", "use cachelito_async::cache_async;", ""] + header_extra
+    for r in rows:
         n, ty = r["name"], RET_TY[r["ret"]]
         if r["inv"]:
             L.append("fn inv_%s(key: &String, v: &%s) -> bool { let v = v.clone(); consult_inv(\"%s\", key, %s) }"
@@ -134,40 +180,57 @@ def gen(out_rs, out_json):
             L.append("fn cif_%s(key: &String, v: &%s) -> bool { let v = v.clone(); consult_cif(\"%s\", key, %s) }"
                      % (n, ty, n, out_expr(r["ret"])))
         at = attr_text(r)
-        if r["kind"] == "async":
-            L.append("#[cache_async(%s)]" % at if at else "#[cache_async]")
-            aw = "".join("    gate(\"%s\", %d).await;\n" % (n, i + 1) for i in range(r["awaits"]))
-            L.append("pub async fn %s(k: u32) -> %s {\n    let r = body(\"%s\", k);\n%s    %s\n}" %
-                     (n, ty, n, aw, conv_expr(r["ret"])))
+        is_async = r["kind"] == "async"
+        mac = ("#[cache_async(%s)]" % at if at else "#[cache_async]") if is_async else ("#[cache(%s)]" % at if at else "#[cache]")
+        aw = "".join("    gate(\"%s\", %d).await;\n" % (n, i + 1) for i in range(r["awaits"]))
+        params, kexpr, indent, open_impl, close_impl = SIGS[r["sig"]]
+        fn = "pub %sfn %s(%s) -> %s {\n    let r = body(\"%s\", %s);\n%s    %s\n}" % (
+            "async " if is_async else "", n, params, ty, n, kexpr, aw, conv_expr(r["ret"]))
+        if open_impl:
+            L += ["impl Obj {", mac, fn, "}"]
         else:
-            L.append("#[cache(%s)]" % at if at else "#[cache]")
-            L.append("pub fn %s(k: u32) -> %s {\n    let r = body(\"%s\", k);\n    %s\n}" %
-                     (n, ty, n, conv_expr(r["ret"])))
+            L += [mac, fn]
         L.append("")
-    # dispatchers
-    L.append("pub fn call_sync(name: &str, k: u32) -> Option<Out> {")
+    L.append("pub fn %s(name: &str, k: u32) -> Option<Out> {" % sync_fn)
     L.append("    match name {")
-    for r in ROWS:
+    for r in rows:
         if r["kind"] != "async":
-            L.append("        \"%s\" => { let v = %s(k); Some(%s) }" % (r["name"], r["name"], out_expr(r["ret"])))
-    L.append("        _ => None,\n    }\n}\n")
-    L.append("pub fn call_async(name: &str, k: u32) -> Option<std::pin::Pin<Box<dyn std::future::Future<Output = Out>>>> {")
+            L.append("        \"%s\" => { let v = %s; Some(%s) }" % (r["name"], CALLS[r["sig"]].format(f=r["name"]), out_expr(r["ret"])))
+    L.append("        _ => %s,\n    }\n}\n" % fallthrough[0])
+    L.append("pub fn %s(name: &str, k: u32) -> Option<std::pin::Pin<Box<dyn std::future::Future<Output = Out>>>> {" % async_fn)
     L.append("    match name {")
-    for r in ROWS:
+    for r in rows:
         if r["kind"] == "async":
-            L.append("        \"%s\" => Some(Box::pin(async move { let v = %s(k).await; %s }))," %
-                     (r["name"], r["name"], out_expr(r["ret"])))
-    L.append("        _ => None,\n    }\n}\n")
-    open(out_rs, "w").write("\n".join(L) + "\n")
+            L.append("        \"%s\" => Some(Box::pin(async move { let v = %s.await; %s }))," %
+                     (r["name"], CALLS[r["sig"]].format(f=r["name"]), out_expr(r["ret"])))
+    L.append("        _ => %s,\n    }\n}\n" % fallthrough[1])
+    return "\n".join(L) + "\n"
+
+
+def gen(out_rs, out_json):
+    base = [r for r in ROWS if not r["corpus"]]
+    corpus = [r for r in ROWS if r["corpus"]]
+    obj = ["#[derive(Debug, Clone, Copy)]", "pub struct Obj { pub id: u32 }",
+           "impl cachelito_core::DefaultCacheableKey for Obj {}", ""]
+    open(out_rs, "w").write(gen_rs(base, obj, "call_sync", "call_async",
+                                   ("crate::corpus_gen::call_sync(name, k)", "crate::corpus_gen::call_async(name, k)")))
+    open(os.path.join(os.path.dirname(out_rs), "corpus_gen_real.rs"), "w").write(
+        gen_rs(corpus, ["use crate::fixtures_gen::Obj;", ""], "call_sync", "call_async", ("None", "None")))
+    L = []
     table = []
     for r in ROWS:
         table.append(dict(name=r["name"], cache_name=r["alias"] or r["name"], kind=r["kind"], ret=r["ret"],
                           isResult=r["ret"] in ("res", "res_std", "res_str"), hasCif=r["cif"], hasInv=r["inv"],
                           tags=r["tags"], events=r["events"], deps=r["deps"], awaits=r["awaits"],
-                          attrs=attr_text(r),
+                          attrs=attr_text(r), keyfmt=KEYFMT[r["sig"]], sig=r["sig"], corpus=r["corpus"],
                           cfg=dict(flavour=r["kind"], policy=r["policy"] or "fifo", limit=r["limit"],
                                    ttl=r["ttl"], maxmem=r["maxmem"], w=r["w"] or "none")))
     json.dump(table, open(out_json, "w"), indent=1)
+    with open(os.path.join(os.path.dirname(out_json), "attr_rows.ndjson"), "w") as f:
+        for t in ATTR_ROWS:
+            f.write(json.dumps(t) + "\n")
+        for b in attr_corpus.invalid_rows():
+            f.write(json.dumps(b["tla"]) + "\n")
 
 
 if __name__ == "__main__":
